@@ -138,6 +138,31 @@ func init() {
 				lcase{"size=max " + e, func() []byte { return pad(maxIn, "") }, e, ""},
 				lcase{"size=max+1 " + e, func() []byte { return pad(maxIn+1, "") }, e, "E1006"})
 		}
+		// the size limit counts BYTES: filler of multi-byte characters (inside a comment, so the text stays lexically
+		// harmless), invalid UTF-8 and NUL bytes just over / exactly at the limit
+		fill := func(n int, unit string) []byte {
+			b := make([]byte, 0, n+8)
+			b = append(b, "SELECT 1 /* "...)
+			for len(b)+len(unit)+3 <= n {
+				b = append(b, unit...)
+			}
+			for len(b)+3 < n {
+				b = append(b, ' ')
+			}
+			b = append(b, " */"...)
+			return b
+		}
+		for _, e := range []string{"tokenize", "tokenizectx"} {
+			e := e
+			for _, u := range []struct{ name, unit string }{{"2-byte", "\u00e9"}, {"3-byte", "\u20ac"}, {"4-byte", "\U0001F600"}, {"invalid-utf8", "\xff\xfe"}} {
+				u := u
+				cases = append(cases,
+					lcase{"size=max+1 " + u.name + " " + e, func() []byte { return fill(maxIn+1, u.unit) }, e, "E1006"})
+				if full || u.name == "2-byte" {
+					cases = append(cases, lcase{"size=max " + u.name + " " + e, func() []byte { return fill(maxIn, u.unit) }, e, ""})
+				}
+			}
+		}
 		for _, e := range []string{"tokenize", "tokenizectx"} {
 			e := e
 			cases = append(cases,
